@@ -14,6 +14,8 @@ import (
 
 type Clause struct {
 	Label string
+	Uses    []string // hypotheses selection (labels of loop invariants), see mkClause
+	HasUses bool
 	E     Expr
 	Src   string
 	Line  int
@@ -385,11 +387,24 @@ func mkClause(src string, line int) (Clause, error) {
 		label = strings.TrimSpace(s[5:i])
 		s = strings.TrimSpace(s[i+1:])
 	}
+	// `case L uses A, B:` -- the proof of this clause takes only the labelled loop invariants A, B (and L itself) as
+	// hypotheses; the other labelled invariants are left out of its script (fewer hypotheses: sound)
+	var uses []string
+	hasUses := false
+	if j := strings.Index(label, " uses"); j > 0 {
+		hasUses = true
+		for _, u := range strings.Split(label[j+5:], ",") {
+			if u = strings.TrimSpace(u); u != "" {
+				uses = append(uses, u)
+			}
+		}
+		label = strings.TrimSpace(label[:j])
+	}
 	e, err := ParseExpr(s)
 	if err != nil {
 		return Clause{}, err
 	}
-	return Clause{Label: label, E: e, Src: s, Line: line}, nil
+	return Clause{Label: label, E: e, Src: s, Line: line, Uses: uses, HasUses: hasUses}, nil
 }
 
 var loopRe = regexp.MustCompile(`^(\d+)?\s*(\(([^)]*)\))?\s+(invariant|unroll|decreases|assigns)\s+(.*)$`)
